@@ -462,10 +462,17 @@ class UAlg(_Alg):
         if op == "*":
             if exact_int:
                 return SymNum(a.t * b.t, k)
+            # IEEE: x * 1 == x exactly
+            if _is_one(b.t):
+                return SymNum(a.t, k)
+            if _is_one(a.t):
+                return SymNum(b.t, k)
             x, y = _order(a.t, b.t)
             return SymNum(_fmul(x, y), k)
         if op == "/":
             self.ctx.safety_check("div-nonzero", b.t != 0)
+            if _is_one(b.t):
+                return SymNum(a.t, KFLOAT)
             return SymNum(_fdiv(a.t, b.t), KFLOAT)
         if op == "**":
             return SymNum(_fpow(a.t, b.t), k)
@@ -477,6 +484,10 @@ class UAlg(_Alg):
     def fn(self, name, a):
         a = SymNum.lift(a)
         return SymNum(self._F[name](a.t), KFLOAT)
+
+
+def _is_one(t):
+    return z3.is_rational_value(t) and t.numerator_as_long() == 1 and t.denominator_as_long() == 1
 
 
 def _order(x, y):
